@@ -610,7 +610,8 @@ func (a *Array) PopIterate(fn ArrayPopIterationFunc) error {
 		}
 	}
 
-	return nil
+	// This container is changed by removing all elements: update parent container, if any.
+	return a.notifyParentIfNeeded()
 }
 
 // Slab operations (split root, promote child slab to root)
